@@ -274,6 +274,34 @@ def r8_single_forwarder(ctx):
         ctx.ob("R01.8", "process_stream_data:tuple-forwarded", ok, wd[0].site, "write_data_frame(item.0, item.1) of the tuple received from the outbound queue" if ok else "write_data_frame gets (%s, %s)" % (f1[:80], f2[:80]))
 
 
+def r12_every_dequeued_chunk_is_written(ctx):
+    """the forwarding task writes every chunk it takes off the outbound queue (or leaves the loop): no path from 'got a chunk'
+    back to waiting skips write_data_frame"""
+    body = co(ctx, "R01.12", S + "process_stream_data")
+    if body is None:
+        return
+    cfg, conds, o = ctx.cfg(body), ctx.conds(body), ctx.origins(body)
+    wd = calls_norm(body, "Session::write_data_frame")
+    got = []
+    waits = set()
+    for c in conds.all():
+        if c.kind != "variant" or "Some" not in sum(c.by_succ.values(), []):
+            continue
+        roots = [s for s in subterms(c.term) if isinstance(s, tuple) and s and s[0] == "call" and (s[1].endswith("future::poll_fn") or "UnboundedReceiver" in s[1] and s[1].endswith("::recv"))]
+        if not roots or not cfg.in_cycle(c.block):
+            continue
+        got += c.succs_for("Some")
+        waits |= {r[2] for r in roots}
+    if not wd or not got:
+        ctx.missing("R01.12", "dequeue test (Some edge of the outbound queue's recv) / write_data_frame call in process_stream_data")
+        return
+    ok, p = cfg.must_pass(got, sorted(waits), via_blocks=[w.bb for w in wd])
+    ctx.ob("R01.12", "process_stream_data:every-dequeued-chunk-is-written", ok, wd[0].site,
+           "from 'a chunk was dequeued' every path back to waiting passes write_data_frame (the only other way on is out of the loop)" if ok else
+           "a dequeued chunk can be dropped: a path leads from the dequeue back to waiting for the next one without write_data_frame — Stream::send_data/poll_write already reported those bytes as written "
+           "(e.g. a 'stream is gone' guard consulting the stream table, which a peer's FIN empties although FIN only ends the peer's direction)", path=None if ok else render_path(body, p))
+
+
 PARTIAL_WRITES = ("AsyncWriteExt::write", "AsyncWriteExt::write_buf", "AsyncWriteExt::write_vectored", "AsyncWrite::poll_write", "AsyncWriteExt::write_all_buf_partial",
                   "io::Write::write", "io::Write::write_vectored")
 
@@ -368,7 +396,7 @@ def r10_forwarding_slices(ctx):
                         same_n = isinstance(cnt, tuple) and cnt[0] == "call" and cnt[2] == r.bb
                         no_from = "RangeTo" in t[3][1][1] and "Inclusive" not in t[3][1][1]
                         ok = same_buf and same_n and no_from
-                owner = key.split("::{closure")[0]
+                owner = ctx.P.owner(key)
                 ctx.ob("R01.10", "%s|relay:%s<-%s#%d" % (owner, s.norm.split("::")[-1], r.norm.split("::")[-1], n), ok, s.site,
                        "forwards buf[..n] of this iteration's read" if ok else
                        "the relay loop forwards `%s`: not exactly buf[..n] for the buffer and count of this iteration's read — bytes are dropped, repeated or stale bytes are sent" % det)
@@ -376,6 +404,11 @@ def r10_forwarding_slices(ctx):
 
 
 def run(ctx):
+    from . import C04, C11
+    r12_every_dequeued_chunk_is_written(ctx)
+    C04.r6_flushed_before_success(ctx)   # bytes reported as written are actually pushed to the transport
+    C04.r1_waste_frames(ctx)    # a padding frame whose body is not the length its header announces desynchronises every later frame of the session
+    C11.r3_open_order(ctx)      # the inbound queue exists before the SYN is on the wire: a peer that speaks first is not dropped
     r10_forwarding_slices(ctx)
     r11_poll_write_accounting(ctx)
     r1_encode_cast(ctx)
